@@ -58,7 +58,7 @@ def purge_what(row):
 
 
 def purge_suite(ctx, vh):
-    args = ["-mode", "purge", "-seed", ctx.seed, "-tier", ctx.tier, "-n", 900 if ctx.quick else 0]
+    args = ["-mode", "purge", "-seed", ctx.seed, "-tier", ctx.tier, "-n", 500 if ctx.quick else 0]
     rows = ctx.vh_jsonl(vh, "acks", args, timeout=600)
     if rows is None:
         return
@@ -263,6 +263,54 @@ def live_suite(ctx, vh, name, mode, mk_cases):
                       {"kind": "correspondence-broken", "suite": name, "theorems": THEOREMS, "case": cases[i][1]}, no_input=True)
 
 
+def peer_suite(ctx, vh):
+    rows = ctx.vh_jsonl(vh, "acks", ["-mode", "rawpeer", "-seed", ctx.seed, "-tier", ctx.tier], timeout=600)
+    if rows is None:
+        return
+    rows = [r for r in rows if not r.get("err")]
+
+    def term(r):
+        s = r["spec"]
+        cands = [1003 + c + 10 * h for h in range(s["hands"]) for c in range(s["calls"])]
+        return "(mkKcase %s %s %s)" % (g_args_list(cands), gbool(not s["conc"]), g_args_list(r["seen"]))
+
+    def evaluate(rows, tag):
+        terms = [term(r) for r in rows]
+        if not ctx.coq_eval_cases("peer_both" + tag, HDR, terms, "kboth"):
+            return [], []
+        return (ctx.coq_eval_cases("peer_oracle" + tag, HDR, terms, "koracle"),
+                ctx.coq_eval_cases("peer_agree" + tag, HDR, terms, "kagree"))
+
+    bad_o, bad_a = evaluate(rows, "")
+    suspects = sorted(set(bad_o) | set(bad_a))
+    if suspects:
+        # "no ACK packet seen" can be a stalled machine: run the suspects again alone
+        again = ctx.vh_jsonl(vh, "acks", ["-mode", "rawpeer", "-only", json.dumps([rows[i]["spec"] for i in suspects]),
+                                          "-workers", 1, "-patience", 4000], timeout=600)
+        if again is not None and len(again) == len(suspects) and not any(r.get("err") for r in again):
+            o2, a2 = evaluate(again, "_retry")
+            for j, i in enumerate(suspects):
+                rows[i] = again[j]
+            bad_o, bad_a = [suspects[j] for j in o2], [suspects[j] for j in a2]
+            ctx.note("rawpeer: %d suspects re-run alone, %d reproduce" % (len(suspects), len(set(bad_o) | set(bad_a))))
+    for r in rows:
+        s = r["spec"]
+        ctx.count(1, nontrivial_key=("peer", json.dumps(s, sort_keys=True)) if s["calls"] * s["hands"] > 1 else None,
+                  dist="rawpeer:%s" % ("concurrent" if s["conc"] else "sequential"))
+    ctx.obligation("correspondence:rawpeer", "correspondence", not bad_a, "%d events, %d disagree" % (len(rows), len(bad_a)))
+    ctx.obligation("oracle:rawpeer", "oracle", not bad_o, "%d events, %d fail" % (len(rows), len(bad_o)))
+    for i in bad_o[:3]:
+        ctx.violation("one reply per event violated: %s socket answered an event whose handlers call the ack function "
+                      "(%s) with ACK packets %s on the wire (expected exactly one, carrying the first call's arguments)"
+                      % (rows[i]["spec"]["side"], json.dumps(rows[i]["spec"]), rows[i]["seen"]),
+                      {"kind": "failing-input", "engine": "acks", "mode": "rawpeer", "case": rows[i],
+                       "replay_cmd": "vh acks -mode rawpeer -only '%s'" % json.dumps([rows[i]["spec"]])})
+    if bad_a and not bad_o:
+        ctx.violation("answering side no longer behaves as the peer part of the model Sio/Ack.v: %s" % rows[bad_a[0]],
+                      {"kind": "correspondence-broken", "suite": "rawpeer", "theorems": ["C03_one_reply_per_event"],
+                       "case": rows[bad_a[0]]}, no_input=True)
+
+
 def run(ctx):
     ctx.rule = ("purge: every layout of <=2 packets and a seeded sample (quick) / all (thorough) of the 3-packet layouts over "
                 "{T,K,N} x 0..3 attachments, non-trivial = a timed-out packet with >=1 attachment; live: one case per emitted "
@@ -277,10 +325,11 @@ def run(ctx):
     vh = ctx.go_build()
     if vh is None:
         return
-    with cf.ThreadPoolExecutor(max_workers=4) as ex:
+    with cf.ThreadPoolExecutor(max_workers=5) as ex:
         futs = [ex.submit(purge_suite, ctx, vh),
                 ex.submit(live_suite, ctx, vh, "race", "race", race_cases),
                 ex.submit(live_suite, ctx, vh, "forced", "forced", race_cases),
-                ex.submit(live_suite, ctx, vh, "raw", "raw", raw_cases)]
+                ex.submit(live_suite, ctx, vh, "raw", "raw", raw_cases),
+                ex.submit(peer_suite, ctx, vh)]
         for f in futs:
             f.result()
